@@ -91,6 +91,26 @@ class sym_float(object, metaclass=_FloatMeta):
         return _real_float(x)
 
 
+_real_eval = eval
+
+
+def sym_eval(src, g=None, l=None):
+    """builtin eval for twin code: same scoping as the builtin (caller's
+    frame), plus the symbolic tokens produced by str(Sym)"""
+    fr = sys._getframe(1)
+    if g is None:
+        g = fr.f_globals
+        if l is None:
+            l = fr.f_locals
+    if isinstance(src, str) and '_SYMTOK' in src:
+        env = dict(l if l is not None else {})
+        env.update(symx.STR_TABLE)
+        return _real_eval(src, g, env)
+    if l is None:
+        return _real_eval(src, g)
+    return _real_eval(src, g, l)
+
+
 def sym_round(x, n=None):
     if _real_isinstance(x, symx.Sym):
         return x.__round__(n)
@@ -117,6 +137,7 @@ class TwinSpace(object):
             b['int'] = sym_int
             b['float'] = sym_float
             b['round'] = sym_round
+            b['eval'] = sym_eval
         b['__import__'] = self._import
         self.builtins = b
 
@@ -218,7 +239,12 @@ class TwinSpace(object):
                     base = base[:-(node.level - 1)]
                 target = '.'.join(base + ([node.module] if node.module else []))
                 for a in node.names:
-                    table[a.asname or a.name] = (target, a.name)
+                    if node.module is None:
+                        # from . import sub  -> the submodule itself
+                        table[a.asname or a.name] = (target + '.' + a.name,
+                                                     None)
+                    else:
+                        table[a.asname or a.name] = (target, a.name)
         space = self
 
         class _Pkg(types.ModuleType):
@@ -227,6 +253,10 @@ class TwinSpace(object):
                     target, name = table[k]
                     if name == '*':
                         raise AttributeError(k)
+                    if name is None:
+                        v = space.twin(target)
+                        self_.__dict__[k] = v
+                        return v
                     tm = space.twin(target)
                     if hasattr(tm, name):
                         v = getattr(tm, name)
